@@ -126,6 +126,40 @@ def window_cases(seed=0):
     return bad, n
 
 
+def step_equation_cases(seed=0):
+    """one REAL adaptive_euler_step on a device with terminals for terminal_psi in {0, 0.6, None}: the answered psi' and |psi'|^2 satisfy
+    psi' + z|psi'|^2 = w with z, w recomputed here from the documented formulas for the dt that was answered, at EVERY site"""
+    import tdgl
+    from tdgl.solver.solver import TDGLSolver
+    logging.disable(logging.CRITICAL)
+    dev = device()
+    bad, n = [], 0
+    rng = np.random.default_rng(seed)
+    for tp in (0.0, 0.6, 0.3 + 0.4j, None):
+        for gamma_case in (True,):
+            o = tdgl.SolverOptions(solve_time=1, terminal_psi=tp, dt_init=2e-2, dt_max=2e-2)
+            s = TDGLSolver(dev, o, applied_vector_potential=0.3, terminal_currents=dict(source=1.0, drain=-1.0))
+            psi = s.psi_init * np.exp(1j * rng.normal(size=len(s.psi_init)) * 0.3) * (1 - 0.2 * rng.random(len(s.psi_init)))
+            if tp is not None:
+                psi[np.concatenate([t.site_indices for t in s.terminal_info])] = tp
+            mu = rng.normal(size=len(psi)) * 0.1
+            sq = np.abs(psi) ** 2
+            psi1, sq1, dt = s.adaptive_euler_step(0, psi.copy(), sq.copy(), mu.copy(), s.epsilon, 2e-2)
+            n += 1
+            U = np.exp(-1j * mu * dt)
+            z = U * s.gamma ** 2 / 2 * psi
+            w = z * sq + U * (psi + (dt / s.u) * np.sqrt(1 + s.gamma ** 2 * sq) * ((s.epsilon - sq) * psi + s.operators.psi_laplacian @ psi))
+            res = np.abs(psi1 + z * sq1 - w)
+            mod = np.abs(sq1 - np.abs(psi1) ** 2)
+            if res.max() > 1e-9 or mod.max() > 1e-9:
+                k = int(np.argmax(res + mod))
+                tsites = set(np.concatenate([t.site_indices for t in s.terminal_info]).tolist())
+                bad.append(dict(what="the answered step does not satisfy psi' + z|psi'|^2 = w / reports a |psi'|^2 that is not the modulus of psi'", terminal_psi=str(tp),
+                                max_residual=float(res.max()), max_modulus_mismatch=float(mod.max()), worst_site=k, worst_site_is_a_terminal_site=k in tsites, dt=float(dt)))
+    logging.disable(logging.NOTSET)
+    return bad, n
+
+
 def init_cases(seed=0):
     """the first step and the step cap a freshly constructed solver starts from, with and without a seed solution"""
     import tempfile
@@ -173,8 +207,10 @@ def replay(unit, obl):
     logging.disable(logging.CRITICAL)
     bad1, n1 = retry_cases()
     bad2, n2 = window_cases()
+    bad3, n3 = step_equation_cases()
+    n2 += n3
     logging.disable(logging.NOTSET)
-    bad = bad1 + bad2
+    bad = bad1 + bad2 + bad3
     if bad:
         return dict(confirmed=True, failing_input=bad[0], n_failing=len(bad), evaluations=n1 + n2, tdgl_file=tdgl.__file__,
                     note="obligation about all option settings / histories replayed on scripted refusal schedules driving the real methods")
